@@ -18,7 +18,7 @@ def _c10_func(fun, tier="quick", **kw):
     return spec("C10/func/" + fun + ("/characterisation" if p["extra"] == "1" else ""), "VerifC10Func", p, tier=tier)
 
 
-_C10_HIST_OPTS = {"solver": "z3-new-m", "timeout_ms": 30000, "thorough": {"budget_s": 6000}}
+_C10_HIST_OPTS = {"solver": "z3-new-t", "timeout_ms": 30000, "thorough": {"budget_s": 6000}}
 _C10_FUNC_OPTS = {"solver": "cvc5", "timeout_ms": 120000}
 
 PROPS["C10"] = {
